@@ -324,4 +324,70 @@ def unionEvents {D} (m : Mode) (ms : List (Member D)) (generic : Err) : List Err
       | none => [generic]
     | .strict => [generic]
 
+/-! ### XsdAnyAttribute.raw_decode (wildcards.py:711-737) and XsdAnyElement.raw_decode (533-571)
+
+  The second place of the descent with an explicit test on the validation mode: the error for a
+  name that a `processContents="strict"` wildcard admits but that has no global declaration (or
+  whose namespace cannot be loaded) is guarded by `validation != 'skip'`. -/
+
+/-- `processContents` -/
+inductive PC where
+  | strict | lax | skip
+  deriving DecidableEq, Repr, Inhabited
+
+/-- what the look-up of the name gives: `load_namespace` fails / no global declaration /
+    a global declaration, with the error events that a lax run of that declaration collects on the
+    instance value (`xsd_attribute.raw_decode`, `xsd_element.raw_decode`). -/
+inductive Lookup where
+  | unavailable
+  | notFound
+  | declared (inner : List Err)
+  deriving Repr
+
+/-- what `raise_or_collect` makes of the events a piece of the descent reaches: strict stops at the
+    first one (it is raised), lax keeps all, skip drops all (validation.py:216-236). -/
+def inMode (m : Mode) (es : List Err) : List Err :=
+  match m with
+  | .strict => es.take 1
+  | .lax => es
+  | .skip => []
+
+/-- the guard of wildcards.py:727/733 and 565 -/
+def reportsMissing (m : Mode) (pc : PC) : Bool := m != .skip && pc == .strict
+
+/-- the guard as a mode-specialised shortcut would write it (NOT the code; counter-example only) -/
+def reportsMissingStrictOnly (m : Mode) (pc : PC) : Bool := m == .strict && pc == .strict
+
+/-- events reached by `XsdAnyAttribute.raw_decode((name, value), m, context)`.
+    `matching` = `self.is_matching(name)`, `ps` = `context.process_skipped`;
+    `eNA` "attribute not allowed", `eUn` "unavailable namespace", `eNF` "attribute not found". -/
+def anyAttrReachedWith (guard : Mode → PC → Bool) (m : Mode) (pc : PC) (matching ps : Bool)
+    (lk : Lookup) (eNA eUn eNF : Err) : List Err :=
+  (if matching then [] else [eNA]) ++
+  (if pc == .skip && !ps then []
+   else match lk with
+     | .declared inner => inner
+     | .notFound => if guard m pc then [eNF] else []
+     | .unavailable => if guard m pc then [eUn] else [])
+
+/-- the error events of the attribute wildcard in mode `m` -/
+def anyAttrEvents (m : Mode) (pc : PC) (matching ps : Bool) (lk : Lookup) (eNA eUn eNF : Err) : List Err :=
+  inMode m (anyAttrReachedWith reportsMissing m pc matching ps lk eNA eUn eNF)
+
+/-- events reached by `XsdAnyElement.raw_decode(obj, m, context)`.  `xsiType` = the instance element
+    carries xsi:type (then an element of that type is created and no look-up error is reported);
+    `anon` = the events of decoding `obj` with the created element (xs:anyType, or the xsi:type). -/
+def anyElemReachedWith (guard : Mode → PC → Bool) (m : Mode) (pc : PC) (matching ps xsiType : Bool)
+    (lk : Lookup) (anon : List Err) (eNA eUn eNF : Err) : List Err :=
+  (if matching then [] else [eNA]) ++
+  (if pc == .skip && !ps then []
+   else match lk with
+     | .declared inner => inner
+     | .notFound => if xsiType then anon else (if guard m pc then [eNF] else []) ++ anon
+     | .unavailable => if xsiType then anon else (if guard m pc then [eUn] else []) ++ anon)
+
+def anyElemEvents (m : Mode) (pc : PC) (matching ps xsiType : Bool) (lk : Lookup) (anon : List Err)
+    (eNA eUn eNF : Err) : List Err :=
+  inMode m (anyElemReachedWith reportsMissing m pc matching ps xsiType lk anon eNA eUn eNF)
+
 end XsVerif.Modes
